@@ -28,7 +28,7 @@ package xpath
 //@ inv precedingQuery: self.Input != nil && self.Predicate != nil
 //@ inv parentQuery: self.Input != nil && self.Predicate != nil
 //@ inv selfQuery: self.Input != nil && self.Predicate != nil
-//@ inv descendantOverDescendantQuery: self.Input != nil && self.Predicate != nil && (self.level != 0 ==> self.currentNode != nil)
+//@ inv descendantOverDescendantQuery: self.Input != nil && self.Predicate != nil && (self.level != 0 ==> self.currentNode != nil) && self.level >= 0
 //@ inv filterQuery: self.Input != nil && self.Predicate != nil
 //@ inv functionQuery: self.Func != nil
 //@ inv transformFunctionQuery: self.Input != nil && self.Func != nil
@@ -748,15 +748,19 @@ package xpath
 //@   loop * invariant[cursor@C13] cur(t) == old(cur(t)) && pos(cur(t)) == old(pos(cur(t)))
 //@   loop * invariant[root@C13] pos(root) == old(pos(cur(t)))
 //@ func (*descendantOverDescendantQuery).moveToFirstChild
-//@   props C15 C13
+//@   props C15 C13 C01
 //@   requires[@C15] d.currentNode != nil
 //@   modifies heap(navpos), d.level
+//@   ensures[level@C01] d.level == ite(result, old(d.level) + 1, old(d.level))
 //@   theory nav for C13
 //@   ensures[moves-own@C13] movesOnly(d.currentNode)
 //@ func (*descendantOverDescendantQuery).moveUpUntilNext
-//@   props C15 C13
+//@   props C15 C13 C01
 //@   requires[@C15] d.currentNode != nil
+//@   requires[level@C01] d.level >= 1
 //@   modifies heap(navpos), d.level
+//@   ensures[level@C01] ite(result, d.level >= 1, d.level == 0)
+//@   loop 0 invariant[level@C01] d.level >= 1
 //@   theory nav for C13
 //@   ensures[moves-own@C13] movesOnly(d.currentNode)
 //@   loop * invariant[moves-own@C13] movesOnly(d.currentNode)
@@ -2171,6 +2175,8 @@ package xpath
 //@   assume[own-navigators] d.currentNode == nil || ref(d.currentNode) != ref(cur(t))   // navigators kept in query fields are copies the query made, never the caller's cursor
 //@   loop * invariant[own@C13] d.currentNode == nil || ref(d.currentNode) != ref(cur(t))
 //@   ensures[drains-input@C01] result == nil ==> k(d.Input) == slen(ref(d.Input), epoch(d.Input))
+//@   ensures[proper-descendant-or-self@C01] result != nil ==> result == d.currentNode && (d.level >= 1 || d.level == 0 && d.MatchSelf && d.posit == 1)
+//@   loop 0 invariant[level@C01] d.level >= 0
 //@ func (*mergeQuery).Select
 //@   props C15 C13
 //@   theory stream for C13
